@@ -42,14 +42,11 @@ def check_a_c(s):
         if l0 != l1:
             return ('strict-not-tolerant', 'strict: %s / tolerant: %s' % (l0[:120], l1[:120]))
     if soup1 is not None and '\x00' not in s and '\x7f' not in s and not oracles.has_bare_args(soup1) \
-            and not oracles.hidden_bare(s):
+            and not oracles.hidden_bare(s) and not oracles.name_not_in_source(s, soup1):
         out = str(soup1)
         if not oracles.aligned(s, out, allow_insert=True):
-            s2 = oracles.f4b_repair(s)
-            if s2 != s:
-                _, soup2, _ = common.impl_parse(s2, 1)
-                if soup2 is not None and (oracles.has_bare_args(soup2) or oracles.aligned(s2, str(soup2), True)):
-                    return ('env-name-f4b', '%r -> %r' % (s[:60], out[:60]))
+            if oracles.f4b_class(s):
+                return ('env-name-f4b', '%r -> %r' % (s[:60], out[:60]))
             return ('tolerant-changes-text', '%r -> %r' % (s[:80], out[:80]))
     return 'ok'
 
